@@ -341,9 +341,15 @@ def make_request(edit, rel, node, env, leaves, universe, opts, seed_expr, pick, 
                 ("and", (fine, ("or", (bad, fine)))),
                 ("and", (fine, bad)),
                 ("not", bad),
-            )[(pick // 29) % 7]
+                # the unsupported function below a connective whose value is decided by a constant operand: the
+                # predicate still contains it, and the predicate as a whole is not constant
+                ("or", (fine, ("and", (("plit", False), bad)))),
+                ("and", (fine, ("or", (("plit", True), bad)))),
+                ("or", (("and", (bad, ("plit", False))), fine)),
+            )[(pick // 29) % 10]
+            constant_operand = (pick // 29) % 10 >= 7  # built with the dataclass constructors: no factory may fold it away
             return (
-                (lambda: rel.with_rows_satisfying(lib_p(p, raw_connectives=bool(pick % 2)), **oo)),
+                (lambda: rel.with_rows_satisfying(lib_p(p, raw_connectives=bool(pick % 2) or constant_operand), **oo)),
                 (EngineError,) + (("wellformed",) if classes_ok_if_wellformed else ()),
                 f"selection on {fmt_p(p)} in {rel.engine}",
             )
